@@ -224,6 +224,11 @@ func (d *dataRecord) GetRecordLength() int {
 
 func (d *dataRecord) AddInfoElement(element InfoElementWithValue) error {
 	if !d.isDecoding {
+		// GetBuffer cannot report encoding errors, so values which cannot be encoded for
+		// their element are refused here.
+		if err := validateValueForEncoding(element); err != nil {
+			return err
+		}
 		d.len = d.len + element.GetLength()
 	}
 	if len(d.orderedElementList) <= int(d.fieldCount) {
